@@ -11,7 +11,8 @@ THEOREMS = [
     "Sb.Proofs.cseek_lands", "Sb.Proofs.landing_history_free", "Sb.Proofs.landing_adjoining", "Sb.Proofs.cseek_congr",
     "Sb.Proofs.buildSegment_total", "Sb.Proofs.seekLoop_eq_cseek", "Sb.Proofs.traj_tiling",
     "Sb.Proofs.getDpoly_coh", "Sb.Proofs.getDdpoly_coh",
-]
+            "Sb.C08Yaw.yaw_answers_history_free", "Sb.C08Yaw.yaw_answers_history_free_of_block", "Sb.C08Yaw.runYHistory_inv",
+            "Sb.Proofs.yaw_seekLoop_eq_cseek", "Sb.Proofs.yaw_tiling", "Sb.Proofs.noYawOverflow_of_block", "Sb.Proofs.noWrapYaw_of_block"]
 RULE = ("trajectory and yaw blocks with positive segment durations; for each object every ordering of up to 4 (quick) / 5 (thorough) "
         "probe times drawn from {-inf, 0, boundaries, boundary±1ulp, interior, end, beyond, +inf} with query kinds rotating over "
         "position/velocity/acceleration/duration (yaw: yaw/rate/duration), plus seeded random walks of 200 (quick) / 10000 (thorough) "
